@@ -18,7 +18,8 @@
    sampled by the check. *)
 From Coupe Require Import Lib.Prelude Lib.SFloat Lib.Report Lib.Rayon Run.RunC06 Proofs.C06Proofs.
 From Coupe Require Proofs.C06Collect.
-From Coupe Require Model.Dual Model.Metrics Model.MultiJagged Proofs.MultiJaggedProofs Proofs.MultiJaggedExact
+From Coupe Require Properties.C11.
+From Coupe Require Model.Dual Model.Metrics Model.MultiJagged Proofs.MultiJaggedProofs
   Model.Rcb Proofs.SFOrder Proofs.RcbBalance Model.SfcPart Proofs.SfcProofs Proofs.ZCurveProofs Proofs.ZCheckProofs.
 From Coq Require Import Permutation QArith.QArith Sorting.Sorted Floats.SpecFloat.
 Import C06Collect.
@@ -123,7 +124,7 @@ Theorem C06_multijagged_leaf_order_partial :
   MultiJagged.mj_with_scheme A D npts wts sorter blk ord2 sch p0 = Ok p2 ->
   forall x y, (x < npts)%nat -> (y < npts)%nat ->
     (nth_opt p1 x = nth_opt p1 y <-> nth_opt p2 x = nth_opt p2 y).
-Proof. exact MultiJaggedProofs.mj_ord_indep. Qed.
+Proof. exact C11.C11_leaf_order_irrelevant. Qed.
 Print Assumptions C06_multijagged_leaf_order_partial.
 
 (* PARTIAL (2): at exact arithmetic, for non-negative weights and increasing
@@ -136,7 +137,7 @@ Print Assumptions C06_multijagged_leaf_order_partial.
 Theorem C06_multijagged_blocks_partial : forall wl ths bs1 bs2,
   Forall (Qle 0) wl -> StronglySorted Qle ths -> Forall (Qle 0) ths ->
   MultiJagged.csp_core MultiJagged.QA wl ths bs1 = MultiJagged.csp_core MultiJagged.QA wl ths bs2.
-Proof. exact MultiJaggedExact.csp_core_blocks_irrelevant. Qed.
+Proof. exact C11.C11_blocks_irrelevant. Qed.
 Print Assumptions C06_multijagged_blocks_partial.
 
 (* ---- Rcb / Rib: the fold + reduce of par_rcb_split (the lemma behind C04).
@@ -148,7 +149,9 @@ Print Assumptions C06_multijagged_blocks_partial.
    points on the right: equal numbers; the INDEX may differ between trees when
    several points share that coordinate); hence the set that reorder_split
    puts on the low side ([filter (< pivot coordinate)]) is the same.
-   What is missing: [forall s1 s2, rcb s1 x = rcb s2 x].  The two runs may
+   What is missing: [forall s1 s2, rcb s1 x = rcb s2 x] (announced by the C03/C04
+   development as rcb_sched_indep, not available yet: the place for it is
+   marked in Proofs/C06Collect.v and at the end of this section).  The two runs may
    hold the same sets in different ORDERS after the in-place reordering, and
    invariance of the later folds under that reordering (true for exact integer
    weight sums) is not proved; weights are modelled as exact integers. *)
@@ -181,6 +184,10 @@ Theorem C06_rcb_fold_generic_partial :
                              (Rcb.par_fold C ltb dist zero inf true t s2 0%nat xs).
 Proof. exact RcbF.fold_two_schedules. Qed.
 Print Assumptions C06_rcb_fold_generic_partial.
+
+(* >>> PLACE RESERVED: Theorem C06_rcb_sched_indep (whole Rcb, every two
+   schedules), to be closed by [exact] of the property theorem of C03/C04 once
+   it exists; see Proofs/C06Collect.v. <<< *)
 
 (* ---- ZCurve (C09).  PARTIAL.  The model's only unspecified choice is the
    tie order of par_sort_unstable_by_key (a sort oracle); the id writes go to
@@ -226,7 +233,7 @@ Print Assumptions C06_hilbert_every_split_vector_partial.
    different pivot INDEX, same weight, same pivot coordinate *)
 Definition ex_keyed : list (Rcb.keyed spec_float) :=
   map (fun '(i, c) => (f64_to_f32 (f64_of_Z c), Rcb.mkitem i [f64_to_f32 (f64_of_Z c)] 1%Z))
-      [(0%nat, 0%Z); (1%nat, 2%Z); (2%nat, 1%Z); (3%nat, 2%Z)].
+      [(0%N, 0%Z); (1%N, 2%Z); (2%N, 1%Z); (3%N, 2%Z)].
 Example C06_nonvacuous_rcb_fold :
   let t := f64_to_f32 (f64_of_Z 2) in
   let f s := Rcb.par_fold spec_float flt f32_sub Rcb.f32_zero Rcb.f32_inf true t s 0%nat ex_keyed in
